@@ -1431,7 +1431,7 @@ impl Family for Growth {
 // ---------------------------------------------------------------------------------------------------------------
 // Process level: option product
 
-const FILESETS: usize = 11;
+const FILESETS: usize = 13;
 const OPT_D: [Option<&[&str]>; 5] = [None, Some(&[""]), Some(&["A"]), Some(&["é"]), Some(&["A", "A", "B"])];
 const OPT_A: [Option<&str>; 5] = [None, Some("All"), Some("deprecated"), Some(""), Some("bogus")];
 const OPT_G: [Option<&str>; 6] = [None, Some(""), Some(","), Some("="), Some("{gen0},k=v"), Some("{work}/missing-generator")];
@@ -1460,7 +1460,7 @@ impl BinaryOptions {
 }
 impl Family for BinaryOptions {
     fn name(&self) -> String {
-        format!("binary-options/11 file-set shapes x {} option vectors over -D, -A, -G, --dry-run, --diagnostic-format, --disable-color (incl. empty strings)", self.vectors.len())
+        format!("binary-options/13 file-set shapes (incl. empty, comment-only, attribute-only and module-only files given as references) x {} option vectors over -D, -A, -G, --dry-run, --diagnostic-format, --disable-color (incl. empty strings)", self.vectors.len())
     }
     fn len(&self) -> u64 {
         (self.vectors.len() * FILESETS) as u64
@@ -1539,9 +1539,25 @@ impl BinaryOptions {
                     argv.extend(["b.slice".to_string(), "a.slice".into()]);
                 }
             }
-            _ => {
+            10 => {
                 sc.tree.push(file("a.slice", valid));
                 argv.extend(["a.slice".to_string(), "./a.slice".into(), "-R".into(), "a.slice".into()]);
+            }
+            11 => {
+                // files that hold nothing (an empty one, one with comments only) given as REFERENCES: they have no
+                // module, and the request that is built for the generators has no place for them
+                sc.tree.push(file("a.slice", valid));
+                sc.tree.push(file("empty.slice", ""));
+                sc.tree.push(file("comment.slice", "// nothing here\n\n/* nor here */\n"));
+                argv.extend(["a.slice".to_string(), "-R".into(), "empty.slice".into(), "-R".into(), "comment.slice".into()]);
+            }
+            _ => {
+                // ... and below a reference directory, next to a file that only declares a module
+                sc.tree.push(file("a.slice", valid));
+                sc.tree.push(file("refs/empty.slice", ""));
+                sc.tree.push(file("refs/only-module.slice", "[[cs::x]]\nmodule OnlyModule\n"));
+                sc.tree.push(file("refs/attributes-only.slice", "[[cs::y(\"z\")]]\n"));
+                argv.extend(["a.slice".to_string(), "-R".into(), "refs".into()]);
             }
         }
         if let Some(ds) = OPT_D[v[0]] {
